@@ -91,9 +91,10 @@ def replay_history(item):
                         r = clients[op['client']].get_geophires_result(GeophiresInputParameters(from_file_path=paths[op['path']]))
                     ev['outcome'] = 'ok'
                     ev['digest'] = digest_report(Path(r.output_file_path).read_text())
-                except RuntimeError:
+                except Exception as ex:  # noqa: BLE001  (the client documents RuntimeError; any exception is a refusal, its type is recorded)
                     ev['outcome'] = 'fail'
                     ev['digest'] = 'none'
+                    ev['exception'] = type(ex).__name__
                 cwd1 = os.getcwd()
                 ev['cwd1'] = rev.get(cwd1, cwd1)
                 ev['argv_same'] = (sys.argv == home_argv)
@@ -249,7 +250,7 @@ def sequence_history(item):
                 with contextlib.redirect_stdout(sink), contextlib.redirect_stderr(sink):
                     r = GeophiresXClient(enable_caching=False).get_geophires_result(GeophiresInputParameters(from_file_path=f))
                 dg = digest_report(Path(r.output_file_path).read_text())
-            except RuntimeError as ex:
+            except Exception as ex:  # noqa: BLE001
                 dg = 'failed'
             out.append({'input': ident, 'digest': dg, 'how': f'{tag}#{k}'})
     finally:
